@@ -569,7 +569,7 @@ func (c *SpecCtx) applySpec(sf *SpecFunc, argExprs []Expr) Val {
 		t := enc.uf(name, sorts, enc.sortOf(rt), ts...)
 		return Val{T: t, Typ: rt}
 	}
-	if !specMacroMode || sf.Decreases != nil {
+	if (!specMacroMode && !sf.Macro) || sf.Decreases != nil {
 		return c.applyFnSpec(sf, args, rt)
 	}
 	// macro expansion
